@@ -457,6 +457,7 @@ var tokens = []string{
 	"é", "日本", "😀", "\x00", "\xff", "\xc3", "\u00a0", "\u2028", "\ufeff",
 	"end_of_file", "op(200,xfx,a)", "halt", "X = 1", "foo(X) :- bar(X)", ":- dynamic(foo/1)", "a --> b",
 	// directives that load the files of the scratch directory (files that load or include themselves or each other)
+	":- dynamic(/(foo)).\n", ":- dynamic(foo-1).\n", ":- dynamic(foo/a).\n", ":- discontiguous('/'(a,b,c)).\n", ":- multifile(foo).\n", ":- dynamic(_).\n", ":- dynamic([foo/1|_]).\n", ":- dynamic((a/1, /(b))).\n", ":- dynamic(1/1).\n", ":- dynamic(foo/(-1)).\n", ":- initialization(_).\n", ":- initialization(1).\n", ":- op(_, xfx, a).\n", ":- set_prolog_flag(_, _).\n", ":- ensure_loaded(_).\n", ":- include(1).\n",
 	":- include(selfinc).\n", ":- ensure_loaded(selfload).\n", ":- consult(selfc).\n", ":- include(inc_a).\n", ":- ensure_loaded(mutual_a).\n", ":- include(plain).\n", ":- include(bad).\n", ":- initialization(consult(selfinc)).\n", "consult(selfinc)", "[selfload]",
 	// digits, letters and symbols outside ASCII
 	"٣", "３", "१२", "n(٣)", "X = ３", "٣.٣", "0'٣", "Ⅷ", "²", "ǅ", "ʰ", "€", "∀", "X is ٣ + 1",
@@ -559,7 +560,7 @@ func TestProp(t *testing.T) {
 	defer r.Finish(t)
 	defer func() { theWorker.stop() }()
 	procs := procedures()
-	r.Rule(fmt.Sprintf("every case runs in a worker process (memory limit %d MiB through debug.SetMemoryLimit and ulimit, scratch working directory, empty user_input, halt/0,1 replaced, step budget %d per call, watchdog %v per case): the death of the worker (fatal stack overflow, unrecovered panic, out of memory) or a call that does not return is the violation. (a) text: rapid-generated token soups from the lexer's classes (names, variables, numbers incl. 0' forms, brackets, operators, quotes with complete and truncated escapes, comments, truncated compounds such as 'X = [-', multi-byte and invalid UTF-8), cut at a drawn position, and raw byte strings, handed to Exec and to Query (3 answers, Close): the call returns and no returned error is the residue of a recovered Go panic (prefix 'panic:'). (b) goals: for every procedure reported by the VerifProcedures hook (%d registered; halt excluded) the goal p(t1..tn) with argument shapes drawn from %d shapes (unbound, atoms, '', [], integers incl. extremes, floats, compounds, proper/partial/improper lists, strings, code lists, stream aliases, an open stream term, callable and non-callable bodies, predicate indicators, pairs, option lists, operator specifiers and priorities, flags) - quick: sampled tuples; thorough: additionally the complete cross product for arity <= 2. A returned error must be an engine.Exception whose term is error(Formal, _) with Formal one of the ISO formal error terms (ISO type / domain atoms in the first argument), never a panic residue; raw OS errors (fs.PathError, errno) of the I/O predicates are about the environment and accepted. Non-trivial: (a) a text of >= 3 tokens, (b) a goal with >= 1 non-variable argument that reached the predicate. Distinct by case.", memLimit>>20, stepBudget, caseTimeout, len(procs), len(shapes)),
+	r.Rule(fmt.Sprintf("every case runs in a worker process (memory limit %d MiB through debug.SetMemoryLimit and ulimit, scratch working directory, empty user_input, halt/0,1 replaced, step budget %d per call, watchdog %v per case): the death of the worker (fatal stack overflow, unrecovered panic, out of memory) or a call that does not return is the violation. (a) text: rapid-generated token soups from the lexer's classes (names, variables, numbers incl. 0' forms, brackets, operators, quotes with complete and truncated escapes, comments, truncated compounds such as 'X = [-', multi-byte and invalid UTF-8), cut at a drawn position, and raw byte strings, handed to Exec and to Query (3 answers, Close): the call returns and no returned error is the residue of a recovered Go panic (prefix 'panic:'). (b) goals: for every procedure reported by the VerifProcedures hook (%d registered; halt excluded) the goal p(t1..tn) with argument shapes drawn from %d shapes (unbound, atoms, '', [], integers incl. extremes, floats, compounds, proper/partial/improper lists, strings, code lists, stream aliases, an open stream term, callable and non-callable bodies, predicate indicators, pairs, option lists, operator specifiers and priorities, flags) - quick: sampled tuples plus the cross product for arity <= 2 over the 13 most hostile shapes; thorough: the complete cross product for arity <= 2. A returned error must be an engine.Exception whose term is error(Formal, _) with Formal one of the ISO formal error terms (ISO type / domain atoms in the first argument), never a panic residue; raw OS errors (fs.PathError, errno) of the I/O predicates are about the environment and accepted. Non-trivial: (a) a text of >= 3 tokens, (b) a goal with >= 1 non-variable argument that reached the predicate. Distinct by case.", memLimit>>20, stepBudget, caseTimeout, len(procs), len(shapes)),
 		"for program texts the step budget hit counts as long-running, not as a violation; for a goal whose arguments are all ground (and for phrase/2,3 with an unbound body) it is the violation 'does not return'", "cyclic terms and halt/0,1 are excluded by the property; which error is raised when several apply is not asserted")
 	r.Regress(t)
 	if r.Failed() {
@@ -569,7 +570,13 @@ func TestProp(t *testing.T) {
 		// a dead or wedged worker is replaced; shrinking proceeds with fresh workers
 		r.Fail(tt, "c05", c, err)
 	}
-	if !r.Quick() {
+	{
+		// the predicate x shape matrix for arity <= 2: complete in the thorough tier, over the dozen most hostile
+		// shapes in the quick tier
+		matrixShapes := shapes
+		if r.Quick() {
+			matrixShapes = []string{"_", "''", "[]", "a", "0", "-1", "9223372036854775807", "1.5", "f(_)", "[a|_]", "\"ab\"", "foo/0", "LB"}
+		}
 		idx := 0
 		for _, pr := range procs {
 			if pr.Arity > 2 {
@@ -593,14 +600,14 @@ func TestProp(t *testing.T) {
 					}
 					return
 				}
-				for _, s := range shapes {
+				for _, s := range matrixShapes {
 					rec(append(args, s))
 				}
 			}
 			rec(nil)
 		}
 		r.LabelN("matrix_goals", idx/r.NShards())
-		r.Exhaustive("predicate x argument-shape matrix for every registered procedure of arity <= 2")
+		r.Exhaustive(fmt.Sprintf("predicate x argument-shape matrix for every registered procedure of arity <= 2 over %d shapes", len(matrixShapes)))
 	}
 	r.Rapid(t, "goals", r.Pick(40000, 1500000), func(t *rapid.T) {
 		pr := procs[u(t, len(procs), "proc")]
